@@ -332,7 +332,9 @@ def oracle(case, obs):
     d = obs["disabled"]
     if not (isinstance(d, list) and d and all(x is True for x in d)):
         fails.append(("C01", "created_value_holds", f"{desc}: written {obs['arg']!r}; with inline-snapshot disabled the comparisons give {d!r}"))
-    if obs["second_errors"][0] or obs["second_errors"][1] or obs["second_errors"][2]:
+    if obs["second_errors"][0]:
+        pass        # the rewritten module does not import any more: that is the C01 clause above, not end-of-session processing
+    elif obs["second_errors"][1] or obs["second_errors"][2]:
         fails.append(("C18", "finish_total", f"{desc} second run: {obs['second_errors']}"))
     else:
         if {"create", "fix", "trim"} & set(obs["second_cats"]):
